@@ -29,11 +29,13 @@ impl File {
             r is Ok ==> offset + old(buf)@.len() <= self.content().len() && final(buf)@ == self.content().subrange(offset as int, offset + old(buf)@.len()),
             r is Err && offset + old(buf)@.len() > self.content().len() ==> r->Err_0.kind == io::ErrorKind::UnexpectedEof,
     { unimplemented!() }
-    #[verifier::external_body]
-    pub fn set_len(&self, len: u64) -> (r: Result<(), io::Error>) { unimplemented!() }
-    #[verifier::external_body]
-    pub fn sync_all(&self) -> (r: Result<(), io::Error>) { unimplemented!() }
 }
+/// `f.set_len(len)` / `f.sync_all()`: free functions on purpose — the only way the extracted code reaches them is through the E9 splice that also
+/// records the event, so a call the splice does not recognise is a hard error (undecided), and a DELETED call is a missing event (violation)
+#[verifier::external_body]
+pub fn file_set_len(f: &File, len: u64) -> (r: Result<(), io::Error>) { unimplemented!() }
+#[verifier::external_body]
+pub fn file_sync_all(f: &File) -> (r: Result<(), io::Error>) { unimplemented!() }
 /// `OpenOptions::new().read(true).write(true).open(path)` + codeq `.context(..)`
 pub uninterp spec fn ev_opened(path: String, fid: int) -> bool;
 #[verifier::external_body]
